@@ -1,6 +1,7 @@
 package c03
 
 import (
+	"encoding/json"
 	"fmt"
 	"os"
 	"strconv"
@@ -34,10 +35,13 @@ func TestSweep(t *testing.T) {
 		if m := os.Getenv("VERIF_C03_SWEEP_M"); m != "" && s.R.T == "dag" && strconv.Itoa(s.R.M) != m {
 			return true
 		}
+		if wmin, _ := strconv.Atoi(os.Getenv("VERIF_C03_SWEEP_WMIN")); wmin > 0 && s.R.W < wmin {
+			return true
+		}
 		total++
 		ctx := &vcommon.Ctx{}
 		start := time.Now()
-		f := isolated("source-bytes", s, srcKey(s), ctx)
+		f := isolated("source-bytes", s, srcKeyer(s), ctx)
 		if f != nil {
 			bad++
 			msg := f.Msg
@@ -71,7 +75,7 @@ func TestEvalSrc(t *testing.T) {
 	if src == "" {
 		t.Skip("development tool")
 	}
-	o, steps, calls := loadOnce([]byte(src), 30*time.Second)
+	o, steps, calls := loadOnce([]byte(src), 0, 30*time.Second)
 	fmt.Printf("timedOut=%v panic=%v elapsed=%v steps=%d calls=%d\nresult: %s\n", o.timedOut, o.panicVal, o.elapsed, steps, calls, errText(o.res))
 	if p := findInternalPanic(o.res); p != nil {
 		fmt.Printf("INTERNAL PANIC: %s\n%s\n", errText(p), goStackOf(p))
@@ -98,8 +102,11 @@ func TestSweepApply(t *testing.T) {
 		if onlyRef && !hasRef(a.Args) {
 			continue
 		}
+		if p := os.Getenv("VERIF_C03_SWEEP_PKG"); p != "" && a.Pkg != p {
+			continue
+		}
 		ctx := &vcommon.Ctx{}
-		f := isolated("apply-registry", a, a.Pkg+":"+a.Name, ctx)
+		f := isolated("apply-registry", a, func(kind, fam string) string { return kind + "/" + fam + "/apply" }, ctx)
 		if f != nil {
 			bad++
 			first := f.Msg
@@ -110,4 +117,147 @@ func TestSweepApply(t *testing.T) {
 		}
 	}
 	fmt.Printf("APPLY-DONE shard=%d n=%d failing=%d\n", shard, n, bad)
+}
+
+// TestKeys prints the class signature of every matrix recipe (development).
+func TestKeys(t *testing.T) {
+	if os.Getenv("VERIF_C03_KEYS") == "" {
+		t.Skip("development tool")
+	}
+	seen := map[string]bool{}
+	enumMatrix(0, 1, func(s Src) bool {
+		k := recipeKey(s.R)
+		if !seen[k] {
+			seen[k] = true
+			fmt.Println("KEY", k)
+		}
+		return true
+	})
+}
+
+// TestReaderTiming times the three readers on one recipe (development).
+func TestReaderTiming(t *testing.T) {
+	if os.Getenv("VERIF_C03_RT") == "" {
+		t.Skip("development tool")
+	}
+	tmpl := os.Getenv("VERIF_C03_RT")
+	vs := []int{0, 2, 6, 24, 33}
+	if tmpl == "long" {
+		vs = []int{0, 1, 2, 3, 4, 5, 6, 7, 8, 9}
+	} else {
+		tmpl = "nest"
+	}
+	for _, v := range vs {
+		for _, n := range []int{100000, 1000000} {
+			src := Src{Class: "hostile", R: &Recipe{T: tmpl, V: v, N: n}}.Bytes()
+			for i, name := range readerNames {
+				st := time.Now()
+				rr := runReader(i, src)
+				fmt.Printf("unit=%d n=%d %s: %v n=%d err=%v errs=%d\n", v, n, name, time.Since(st).Round(time.Millisecond), rr.n, rr.err != nil, rr.errs)
+			}
+		}
+	}
+}
+
+// TestZeroDim applies every elpspath callable to zero-/multi-dimensional
+// arrays with a small set of step shapes (development: enumerates which
+// entry points reach storeCells unguarded).
+func TestZeroDim(t *testing.T) {
+	if os.Getenv("VERIF_C03_ZERODIM") == "" {
+		t.Skip("development tool")
+	}
+	arrs := []VD{{K: "array", D: []int{}, ID: 1}, {K: "array", D: []int{}, ID: 1, L: []VD{{K: "int", I: 7}}}, {K: "array", D: []int{2, 2}, ID: 1}, {K: "array", D: []int{0}, ID: 1}}
+	steps := [][]VD{
+		{{K: "int", I: 0}}, {{K: "int", I: -1}}, {{K: "sym", S: []byte("*")}}, {{K: "str", S: []byte("a")}},
+		{{K: "list", L: []VD{{K: "sym", S: []byte("range")}, {K: "int", I: 0}, {K: "int", I: 0}}}},
+		{{K: "list", L: []VD{{K: "sym", S: []byte("range")}, {K: "int", I: 0}, {K: "int", I: 1}}}},
+		{{K: "list", L: []VD{{K: "sym", S: []byte("range")}, {K: "int", I: -1}, {K: "int", I: 5}}}},
+		{},
+	}
+	vals := []VD{{K: "int", I: 1}, {K: "vector", L: []VD{{K: "int", I: 1}, {K: "int", I: 2}}}, {K: "vector"}, {K: "nil"}}
+	for _, c := range callables {
+		if c.Pkg != "elpspath" {
+			continue
+		}
+		for _, via := range []string{"direct", "eval"} {
+			for _, a := range arrs {
+				for _, st := range steps {
+					for _, v := range vals {
+						args := append([]VD{a}, st...)
+						if strings.Contains(c.Name, "set") {
+							args = append(args, v)
+						}
+						ap := Apply{Pkg: c.Pkg, Name: c.Name, Via: via, Args: args}
+						r := &rec{}
+						if f := checkApplyInner(ap, r, 10*time.Second, 10*time.Second); f != nil {
+							fmt.Printf("ZD key=%s args=%s\n", f.Key, describeArgs(ap))
+						}
+					}
+				}
+			}
+		}
+	}
+}
+
+// TestEmitReplays writes one minimal replay file per known finding into
+// VERIF_C03_REPLAY_DIR (development; the files are committed under
+// /verif/replays/C03).
+func TestEmitReplays(t *testing.T) {
+	dir := os.Getenv("VERIF_C03_REPLAY_DIR")
+	if dir == "" {
+		t.Skip("development tool")
+	}
+	opIdx := func(src string) int {
+		for i, o := range valueOps {
+			if o.src == src {
+				return i
+			}
+		}
+		t.Fatalf("no op %q", src)
+		return -1
+	}
+	idx := func(list []string, sub string) int {
+		for i, s := range list {
+			if strings.Contains(s, sub) {
+				return i
+			}
+		}
+		t.Fatalf("no entry containing %q", sub)
+		return -1
+	}
+	listCycle := idx(cyclicBuilders, "(set 'd (slice 'list v 0 2)) (elpspath:?set! v 0 d)")
+	emit := func(name, sub string, c any, key string) {
+		b, _ := json.MarshalIndent(journalRec{Property: "C03", Sub: sub, Key: key, Msg: "known finding, see harness/c03/NOTES.md", Case: c}, "", " ")
+		if err := os.WriteFile(dir+"/known-"+name+".json", append(b, '\n'), 0o644); err != nil {
+			t.Fatal(err)
+		}
+	}
+	src := func(r Recipe) Src { return Src{Class: "hostile", R: &r} }
+	emit("copy-self-containing-list", "source-bytes", src(Recipe{T: "cyclic", V: listCycle, W: opIdx("(stable-sort < (vector d d2) (lambda (x) 0))")}), "death/stack-overflow/cyclic-list/copy")
+	emit("copy-handler-bind", "source-bytes", src(Recipe{T: "cyclic", V: listCycle, W: opIdx("(handler-bind ((boom (lambda (c &rest a) 1))) (error 'boom d))")}), "death/stack-overflow/cyclic-list/copy")
+	emit("export-self-containing-list", "source-bytes", src(Recipe{T: "cyclic", V: listCycle, W: opIdx("(export d)")}), "death/stack-overflow/cyclic-list/export")
+	emit("quasiquote-self-containing-list", "source-bytes", src(Recipe{T: "cyclic", V: listCycle, W: opIdx("(eval (list (car '(quasiquote)) d))")}), "death/stack-overflow/cyclic-list/quasiquote")
+	for fam, op := range map[string]string{"print": "(debug-print d)", "equal": "(equal? d d2)", "json": "(json:dump-string d)",
+		"elpspath": "(elpspath:? d '* '* '*)", "copy": "(stable-sort < (vector d d2) (lambda (x) 0))", "export": "(export d)", "quasiquote": "(eval (list (car '(quasiquote)) d))"} {
+		emit("dag-"+fam, "source-bytes", src(Recipe{T: "dag", V: 0, M: 40, W: opIdx(op)}), "wedge/dag/"+fam)
+	}
+	for g, sub := range map[string]string{"format-string": "(set 's (format-string", "append-bytes": "(set 'b (append-bytes b b)", "string:join": "(set 's (string:join"} {
+		emit("grow-by-"+strings.ReplaceAll(g, ":", "-"), "source-bytes", src(Recipe{T: "huge", N: 40, V: idx(hugePrograms, sub)}), "death/memory-blowup/huge/grow-by/"+g)
+	}
+	nilRe := VD{K: "native", I: 11}
+	emit("regexp-pattern-typed-nil", "apply-registry", Apply{Pkg: "regexp", Name: "regexp-pattern", Via: "eval", Args: []VD{nilRe}}, "panic/regexp:regexp-pattern/nil-pointer-dereference@libregexp.BuiltinPattern")
+	emit("regexp-match-typed-nil", "apply-registry", Apply{Pkg: "regexp", Name: "regexp-match?", Via: "eval", Args: []VD{nilRe, {K: "str", S: []byte("a")}}}, "panic/regexp:regexp-match?/nil-pointer-dereference@libregexp.BuiltinIsMatch")
+	badTd := VD{K: "tagged", S: []byte("lisp:typedef"), L: []VD{{K: "true"}}}
+	emit("new-malformed-typedef", "apply-registry", Apply{Pkg: "lisp", Name: "new", Via: "eval", Args: []VD{badTd}}, "panic/lisp:new/index-out-of-range@lisp.(*LEnv).New")
+	emit("type-malformed-typedef", "apply-registry", Apply{Pkg: "lisp", Name: "type?", Via: "eval", Args: []VD{badTd, {K: "int", I: 1}}}, "panic/lisp:type?/index-out-of-range@lisp.builtinIsType")
+	emit("make-validator-malformed-typedef", "apply-registry", Apply{Pkg: "s", Name: "make-validator", Via: "eval", Args: []VD{badTd, {K: "str", S: []byte("string")}}}, "panic/s:make-validator/index-out-of-range@libschema.builtinMakeValidator")
+	zd := VD{K: "array", D: []int{}}
+	emit("elpspath-del-zero-dim", "apply-registry", Apply{Pkg: "elpspath", Name: "?del!", Via: "eval", Args: []VD{zd, {K: "int", I: 0}}}, "panic/elpspath:?del!/index-out-of-range@libelpspath.storeCells")
+	rng := VD{K: "list", L: []VD{{K: "sym", S: []byte("range")}, {K: "int", I: 0}, {K: "int", I: 0}}}
+	emit("elpspath-nil-zero-dim", "apply-registry", Apply{Pkg: "elpspath", Name: "?nil!", Via: "eval", Args: []VD{zd, rng}}, "panic/elpspath:?nil!/index-out-of-range@libelpspath.storeCells")
+	emit("elpspath-set-zero-dim", "apply-registry", Apply{Pkg: "elpspath", Name: "?set!", Via: "eval", Args: []VD{zd, rng, {K: "vector", L: []VD{{K: "int", I: 1}}}}}, "panic/elpspath:?set!/index-out-of-range@libelpspath.storeCells")
+	selfList := VD{K: "list", ID: 1, L: []VD{{K: "int", I: 1}, {K: "ref", ID: 1}}}
+	emit("apply-quasiquote-self-containing-list", "apply-registry", Apply{Pkg: "lisp", Name: "quasiquote", Via: "direct", Args: []VD{{K: "sexpr", ID: 1, L: []VD{{K: "sym", S: []byte("f")}, {K: "ref", ID: 1}}}}}, "death/stack-overflow/quasiquote/apply")
+	emit("apply-export-self-containing-list", "apply-registry", Apply{Pkg: "lisp", Name: "export", Via: "direct", Args: []VD{{K: "list", ID: 1, L: []VD{{K: "sym", S: []byte("x")}, {K: "ref", ID: 1}}}}}, "death/stack-overflow/export/apply")
+	emit("apply-stable-sort-self-containing-list", "apply-registry", Apply{Pkg: "lisp", Name: "stable-sort", Via: "direct", Args: []VD{{K: "fun", I: 12}, {K: "vector", L: []VD{selfList, {K: "int", I: 2}}}, {K: "fun", I: 13}}}, "death/stack-overflow/copy/apply")
 }
